@@ -491,14 +491,23 @@ def job_equi_enum(args: dict) -> list:
 
 
 def job_random_stats(args: dict) -> dict:
-    mf = RC.build(args["conf"])
+    """per-frame sums of the sampled-column count over many seeds (every frame of a dynamic / multislice call is its own
+    Bernoulli experiment)"""
+    import numpy as np
+
+    conf = args["conf"]
+    mf = RC.build(conf)
     shape = tuple(args["shape"])
-    L = int(mf(shape, return_acs=True, seed=0).sum()) // shape[-3]
-    tot = tot2 = 0
-    for s in args["seeds"]:
-        c = int(mf(shape, seed=s).sum()) // shape[-3]
-        tot += c
-        tot2 += c * c
+    rows = shape[-3]
+    L = int(_frames(np.asarray(mf(shape, return_acs=True, seed=0)), conf, shape)[0].sum()) // rows
+    F = shape[-4] if conf.get("mode", "static") != "static" else 1
+    tot, tot2 = [0] * F, [0] * F
+    for s_ in args["seeds"]:
+        fr = _frames(np.asarray(mf(shape, seed=s_)), conf, shape)
+        for f in range(F):
+            c = int(fr[f].sum()) // rows
+            tot[f] += c
+            tot2[f] += c * c
     return {"L": L, "n": len(args["seeds"]), "sum": tot, "sumsq": tot2}
 
 
@@ -730,6 +739,10 @@ def _safe(store: dict, w, fn: str, args: dict, budget: float, what: dict):
 
 
 def _run_cases(ctx: Ctx, store: dict):
+    import time as _t
+
+    t0 = _t.time()
+    marks = []
     w = RC.Worker()
     store["cases"], store["hangs"], store["crashes"] = [], [], []
     nhang: dict = {}
@@ -758,6 +771,7 @@ def _run_cases(ctx: Ctx, store: dict):
                 store["crashes"].append(_classify_crash({k: c[k] for k in ("conf", "shape", "seed")}, str(e)))
                 continue
             store["cases"].append(c)
+        marks.append(("cases", _t.time() - t0))
         # process-level call histories (each in a fresh process)
         store["hist_cases"], store["hist_acs"] = [], []
         for steps in gen_histories(ctx):
@@ -776,6 +790,7 @@ def _run_cases(ctx: Ctx, store: dict):
             hc, ha = _history_cases(steps, recs)
             store["hist_cases"] += hc
             store["hist_acs"] += ha
+        marks.append(("histories", _t.time() - t0))
         # argument forms and call sites (CreateSamplingMask, apply_mask)
         store["forms"] = []
         fr = ctx.rng
@@ -796,6 +811,7 @@ def _run_cases(ctx: Ctx, store: dict):
             r = _safe(store, w, "job_forms", fc, 60, fc)
             if r is not None:
                 store["forms"].append(dict(fc, res=r))
+        marks.append(("forms", _t.time() - t0))
         # equispaced enumeration on the implementation
         widths = list(range(32, 401)) if ctx.thorough else sorted(set(range(32, 401, 13)) | {33, 399, 400})
         pairs = [("FastMRIEquispaced", R, cf) for R in ENUM_R for cf in ENUM_CF]
@@ -808,6 +824,7 @@ def _run_cases(ctx: Ctx, store: dict):
         cpairs = [("CartesianEquispaced", R, L) for R in (2, 4, 5.5, 8, 12) for L in (2, 5, 9, 16)]
         store["enum"] += _safe(store, w, "job_equi_enum", {"pairs": cpairs, "widths": cw}, 600,
                                {"conf": {"gen": "CartesianEquispaced"}, "shape": None, "seed": None}) or []
+        marks.append(("enumeration", _t.time() - t0))
         # statistics of the random masks
         store["stats"] = []
         nseed = 2000 if ctx.thorough else 400
@@ -819,13 +836,17 @@ def _run_cases(ctx: Ctx, store: dict):
                 cf = _cf_for(R, ctx.rng)
                 if cart:
                     cf = max(2, int(round(N * cf)))
-                conf = {"gen": gen, "accelerations": [R], "center_fractions": [cf], "mode": "static"}
+                smode = ["static", "dynamic", "multislice"][j % 3]
+                conf = {"gen": gen, "accelerations": [R], "center_fractions": [cf], "mode": smode}
+                sshape = [1, N, 2] if smode == "static" else [2, 1, N, 2]
                 seeds = [base + 7919 * k + j for k in range(nseed)]
-                r = _safe(store, w, "job_random_stats", {"conf": conf, "shape": [1, N, 2], "seeds": seeds}, 300,
-                          {"conf": conf, "shape": [1, N, 2], "seed": None})
+                r = _safe(store, w, "job_random_stats", {"conf": conf, "shape": sshape, "seeds": seeds}, 300,
+                          {"conf": conf, "shape": sshape, "seed": None})
                 if r is None:
                     continue
-                store["stats"].append({"conf": conf, "N": N, "R": R, "res": r, "seed_base": base, "j": j, "nseed": nseed})
+                store["stats"].append({"conf": conf, "N": N, "R": R, "res": r, "seed_base": base, "j": j, "nseed": nseed, "shape": sshape})
+        marks.append(("statistics", _t.time() - t0))
+        ctx.notes.append("wall seconds of the real-code stages (cumulative): " + ", ".join(f"{k} {v:.1f}" for k, v in marks))
     finally:
         w.close()
 
@@ -1111,6 +1132,7 @@ def oracle(ctx: Ctx, deep: bool = False):
     worst = {"equi": 0.0, "gauss": 0.0, "poisson": 0.0, "poisson_crop": 0.0, "ktradial": 0.0, "ktradial_crop": 0.0}
     n_opts = {"crop_corner": 0, "tol": 0, "max_attempts": 0, "slopes": 0}
     kt_report: dict = {}
+    kt_frames: dict = {}
     for ha in store.get("hist_acs", []):
         st, rec, ref = ha["st"], ha["rec"], ha["ref"]
         g = st["conf"]["gen"]
@@ -1201,7 +1223,8 @@ def oracle(ctx: Ctx, deep: bool = False):
                                     f"{ms[min(f, len(ms) - 1)]} picks on each of {nsq} nested squares",
                                     dict(rep, frame=f, observed=cnt, acs=Ld, picks=ms[min(f, len(ms) - 1)] * nsq))
             elif gen in ("KtUniform", "KtGaussian1D"):
-                pass      # reported per volume below
+                # nothing numeric is documented per frame; reported per frame (columns) and per volume below
+                kt_frames.setdefault(gen, []).append(round(cnt - target, 2))
             elif gen == "KtRadial":
                 wk = "ktradial_crop" if conf.get("kwargs", {}).get("crop_corner") else "ktradial"
                 worst[wk] = max(worst[wk], abs(total / cnt - R) if cnt else float("inf"))
@@ -1282,23 +1305,26 @@ def oracle(ctx: Ctx, deep: bool = False):
                                 {"op": "enum", "gen": e["gen"], "N": e["N"], "R": e["R"], "cf": e["cf"], "offset": off,
                                  "observed": cnt, "expected": tgt})
         ctx.count(("enum", e["gen"], e["N"], e["R"], e["cf"]), True, bucket=f"oracle/enum/{e['gen']}")
-    # random masks: mean count over seeds vs N/R, 6 sigma
+    # random masks: mean count over seeds vs N/R, 6 sigma — every frame of a dynamic / multislice call separately
     for s in store["stats"]:
         r, N, R = s["res"], s["N"], float(s["R"])
         n, L = r["n"], r["L"]
-        mean = r["sum"] / n
         p = (N / R - L) / (N - L)
         p = min(max(p, 0.0), 1.0)
         sigma = math.sqrt(max((N - L) * p * (1 - p), 0.0) / n)
-        dev = abs(mean - N / R)
-        ctx.count(("stats", s["conf"]["gen"], N, R, L, s["seed_base"], s["j"]), True,
-                  sample={"gen": s["conf"]["gen"], "N": N, "R": R, "L": L, "seeds": n, "mean": round(mean, 4),
-                          "target": round(N / R, 4), "sigma_of_mean": round(sigma, 4)}, bucket=f"oracle/stats/{s['conf']['gen']}")
-        if dev > 6 * sigma + 1e-9:
-            yield Violation(f"random-expectation/{s['conf']['gen']}",
-                            f"mean count over {n} seeds {mean:.3f} is {dev / sigma if sigma else float('inf'):.1f} sigma from N/R = {N / R:.3f}",
-                            {"op": "stats", "conf": s["conf"], "N": N, "seed_base": s["seed_base"], "j": s["j"], "nseed": s["nseed"],
-                             "observed": mean, "expected": N / R, "sigma": sigma})
+        for f, tot in enumerate(r["sum"]):
+            mean = tot / n
+            dev = abs(mean - N / R)
+            ctx.count(("stats", s["conf"]["gen"], s["conf"]["mode"], N, R, L, s["seed_base"], s["j"], f), True,
+                      sample={"gen": s["conf"]["gen"], "mode": s["conf"]["mode"], "frame": f, "N": N, "R": R, "L": L, "seeds": n,
+                              "mean": round(mean, 4), "target": round(N / R, 4), "sigma_of_mean": round(sigma, 4)},
+                      bucket=f"oracle/stats/{s['conf']['gen']}/{s['conf']['mode']}")
+            if dev > 6 * sigma + 1e-9:
+                yield Violation(f"random-expectation/{s['conf']['gen']}",
+                                f"mean count of frame {f} over {n} seeds {mean:.3f} is {dev / sigma if sigma else float('inf'):.1f} sigma "
+                                f"from N/R = {N / R:.3f} ({s['conf']['mode']})",
+                                {"op": "stats", "conf": s["conf"], "N": N, "seed_base": s["seed_base"], "j": s["j"], "nseed": s["nseed"],
+                                 "shape": s.get("shape"), "frame": f, "observed": mean, "expected": N / R, "sigma": sigma})
     ctx.notes.append(f"worst deviations on the implementation: equispaced sampled {worst['equi']:.3f} cols, equispaced enumerated "
                      f"{enum_worst[0]:.3f} cols over {n_enum} (N,R,cf,offset) at {enum_worst[1]}, gaussian {worst['gauss']:.3f} "
                      f"samples, poisson |R_actual-R|/tol {worst['poisson']:.3f} (crop_corner=False) {worst['poisson_crop']:.3f} "
@@ -1306,7 +1332,9 @@ def oracle(ctx: Ctx, deep: bool = False):
                      f"{magic_dev:.2f} cols, KtRadial |R_actual-R| {worst['ktradial']:.2f} (crop_corner=False) "
                      f"{worst['ktradial_crop']:.2f} (crop_corner=True), Radial/Spiral |R_actual-R| {worst.get('circus', 0.0):.2f} "
                      f"(pick budget judged), realised minus requested acceleration over the k-t volume: "
-                     + "; ".join(f"{g} min {min(v):.2f} max {max(v):.2f} over {len(v)}" for g, v in sorted(kt_report.items())))
+                     + "; ".join(f"{g} min {min(v):.2f} max {max(v):.2f} over {len(v)}" for g, v in sorted(kt_report.items()))
+                     + "; per frame count minus N/R (columns): "
+                     + "; ".join(f"{g} min {min(v):.1f} max {max(v):.1f} over {len(v)} frames" for g, v in sorted(kt_frames.items())))
 
 
 _OP_WHAT = {
@@ -1410,10 +1438,11 @@ def replay(rep: dict) -> bool:
                      "enum": w.call(MOD, "job_equi_enum", {"pairs": [(rep["gen"], rep["R"], rep["cf"])], "widths": [rep["N"]]}, budget=60)}
         elif rep.get("op") == "stats":
             seeds = [rep["seed_base"] + 7919 * k + rep["j"] for k in range(rep["nseed"])]
-            r = w.call(MOD, "job_random_stats", {"conf": rep["conf"], "shape": [1, rep["N"], 2], "seeds": seeds}, budget=300)
+            sshape = rep.get("shape") or [1, rep["N"], 2]
+            r = w.call(MOD, "job_random_stats", {"conf": rep["conf"], "shape": sshape, "seeds": seeds}, budget=300)
             store = {"cases": [], "hangs": [], "enum": [],
                      "stats": [{"conf": rep["conf"], "N": rep["N"], "R": rep["conf"]["accelerations"][0], "res": r,
-                                "seed_base": rep["seed_base"], "j": rep["j"], "nseed": rep["nseed"]}]}
+                                "seed_base": rep["seed_base"], "j": rep["j"], "nseed": rep["nseed"], "shape": sshape}]}
         else:
             return True
     finally:
